@@ -400,6 +400,12 @@ func c01Mutants(r *rand.Rand, sc *signCase, sig *pipeline.Signature, kp, other, 
 				m.Step.Matrix.Adjustments[ai].Skip = nil
 			}
 			add(m)
+			for _, word := range []string{"false", "true", "0", "1", "f", "no"} {
+				// a string skip is a reason, whatever it spells: not the same content as the boolean or as no skip
+				m = base("matrix:skip-word-" + word)
+				m.Step.Matrix.Adjustments[ai].Skip = word
+				add(m)
+			}
 			m = base("matrix:adjustment-extra-key")
 			if m.Step.Matrix.Adjustments[ai].RemainingFields == nil {
 				m.Step.Matrix.Adjustments[ai].RemainingFields = map[string]any{}
